@@ -304,6 +304,9 @@ func boolInt(b bool) int {
 }
 
 func (p *c03Prop) Gen(r *Rng, tier string, n int) []string {
+	// main.go's seeds give shifted copies of one stream (state = seed*G, step = G): combine two outputs so that
+	// different seeds give unrelated case sets
+	r = &Rng{s: r.Next()*0x9E3779B97F4A7C15 ^ r.Next()}
 	out := make([]string, 0, n)
 	for i := 0; i < n; i++ {
 		rr := r.Fork()
